@@ -160,6 +160,19 @@ def seeded_variants(prop):
     return out
 
 
+def benign_variants(prop):
+    """the confirmed behaviour-preserving refactorings kept under /verif/benign: every check must stay silent on each."""
+    out = []
+    root = os.path.join(VERIF, 'benign')
+    if not os.path.isdir(root):
+        return out
+    for d in sorted(os.listdir(root)):
+        pp = os.path.join(root, d, 'patch.diff')
+        if os.path.exists(pp):
+            out.append(V('S', 'benign/%s' % d, [], expect=[], patch=pp, note='behaviour-preserving refactoring of %s' % d))
+    return out
+
+
 def load_variants(prop):
     import importlib
     try:
@@ -167,7 +180,7 @@ def load_variants(prop):
         vs = list(mod.VARIANTS)
     except ModuleNotFoundError:
         vs = []
-    return vs + seeded_variants(prop)
+    return vs + seeded_variants(prop) + benign_variants(prop)
 
 
 def run(ctx):
